@@ -69,7 +69,8 @@ Definition group_ok (g : grp) : bool :=
   match g_sufs g with [s] => wf_suf s | _ => false end
   && negb (str_eqb (g_key g) k_in_features)
   && negb (existsb (str_eqb (g_key g)) (g_defaults g))
-  && (g_min g <=? 1) && match g_max g with None => true | Some m => 1 <=? m end.
+  && (g_min g <=? 1) && match g_max g with None => true | Some m => 1 <=? m end
+  && negb (existsb (str_eqb k_in_features) (g_defaults g)).
 
 Definition groups_apart (g h : grp) : bool :=
   negb (is_suffix (us :: g_suf g) (us :: g_suf h))
